@@ -211,6 +211,9 @@ def run(ctx):
         from harness.common import run_demo
         run_demo(ctx, 'demo_tr3.py', [1 + ctx.seed], 'c02-code-vs-generated-vs-model',
                  'inference / leaf likelihood code vs generated definitions vs model', env_extra=dict(DEMO_SECTIONS='a'))
+        if ctx.n_new() == 0:
+            run_demo(ctx, 'demo_graphio.py', [1 + ctx.seed], 'c02-message-passing-order-vs-model',
+                     'compute_bfs_ordering and the array pass of message_passing against the model (order, messages, values)')
 
 
 def replay(rep):
